@@ -1,6 +1,10 @@
 """C09 -- existing outputs are never overwritten and _SUCCESS marks only complete saves.
 
-case = (saver, max_retries, parts, pre, wfaults, cfaults, ext, persist, name)
+case = (saver, max_retries, parts, pre, wfaults, cfaults, ext, persist, name, spell)
+  spell    how the target's path is written when handed to the saver: 0 absolute, 1 with a '.' component, 2 doubled
+           separators, 3 trailing separator, 4 relative to the working directory, 5 through a symlinked directory followed
+           by '..' (work/latest/../<name> with work/latest -> store/current: the OS resolves it to store/<name>, a
+           textual normalisation to work/<name>), 6 = 5 with a '.' component and a trailing separator
   name     the target's own name below the scratch directory, possibly with one parent component ('out', '_staging',
            'runs/_latest', ...); the codec extension is appended to it
   persist  (mode, k): mode 0 the saved data set is not persisted; 1 it is persisted (cache()) and take(k) ran on it
@@ -96,25 +100,30 @@ def _content(saver, part):
 
 
 def kind(case):
-    saver, m, parts, pre, wf, cf, ext, persist, name = case
+    saver, m, parts, pre, wf, cf, ext, persist, name, spell = case
     s = ('text' if saver % 2 == TEXT else 'pickle') + ('-url' if saver >= 2 else '')
     p = ['absent', 'file', 'dir'][pre[0]]
     f = ('w' if wf else '') + ('c' if cf else '') or 'nofault'
-    return f'{s}{"+codec" if ext else ""}{"+persisted" if persist[0] else ""}{"+name" if name != "out" else ""}/{p}/{f}'
+    return f'{s}{"+codec" if ext else ""}{"+persisted" if persist[0] else ""}{"+name" if name != "out" else ""}{"+spelled" if spell else ""}/{p}/{f}'
 
 
 def impl(case):
-    saver, m, parts, pre, wfaults, cfaults, ext, persist, name = case
+    saver, m, parts, pre, wfaults, cfaults, ext, persist, name, spell = case
     pmode, pk = persist
     pre = tuple(pre)
     n = len(parts)
     d = os.path.join(_BASE, str(next(_counter)))
     os.makedirs(d)
-    target = os.path.join(d, name + ext)
+    # layout: <d>/store/current/, <d>/work/latest -> <d>/store/current; the target lives in <d>/store/
+    os.makedirs(os.path.join(d, 'store', 'current'))
+    os.makedirs(os.path.join(d, 'work'))
+    os.symlink(os.path.join(d, 'store', 'current'), os.path.join(d, 'work', 'latest'))
+    target = os.path.join(d, 'store', name + ext)
     os.makedirs(os.path.dirname(target), exist_ok=True)
-    url = ('file://' if saver >= 2 else '') + target
+    url = ('file://' if saver >= 2 else '') + _spelled(d, target, name + ext, spell)
     try:
         faultfs.materialise(target, pre, ext)
+        outside_before = _outside(d, target)
         ctx = Context(max_retries=m)
         data = [_elements(saver, p) for p in parts]
         faulty = faultfs.FaultyPartitions(cfaults)
@@ -175,9 +184,37 @@ def impl(case):
             except Exception as e:  # pylint: disable=broad-except
                 r3 = Err(type(e).__name__)
             resave = (r3, faultfs.snapshot(target, ext) == final)
-        return (outcome, final, hist, ff.calls, locked, follow, read, names, per_part, read_glob, resave)
+        stray = sorted(_outside(d, target) - outside_before)
+        return (outcome, final, hist, ff.calls, locked, follow, read, names, per_part, read_glob, resave, stray)
     finally:
         shutil.rmtree(d, ignore_errors=True)
+
+
+def _spelled(d, target, rel, spell):
+    if spell == 1:
+        return os.path.join(d, 'store', '.', rel)
+    if spell == 2:
+        return target.replace('/', '//')
+    if spell == 3:
+        return target + '/'
+    if spell == 4:
+        return os.path.relpath(target, os.getcwd())
+    if spell == 5:
+        return os.path.join(d, 'work', 'latest', '..', rel)
+    if spell == 6:
+        return os.path.join(d, 'work', 'latest', '..', '.', rel) + '/'
+    return target
+
+
+def _outside(d, target):
+    """Every path below the scratch directory that is not the target or inside it."""
+    out = set()
+    for root, dirs, files in os.walk(d):
+        for x in dirs + files:
+            p = os.path.join(root, x)
+            if p != target and not p.startswith(target + os.sep):
+                out.add(os.path.relpath(p, d))
+    return out
 
 
 def _has_marker(snap):
@@ -215,18 +252,21 @@ def _complete(saver, parts, snap):
 
 def oracle(case, result):
     """The statement of C09 evaluated on what the implementation did (no reference to the Coq model)."""
-    saver, m, parts, pre, wfaults, cfaults, ext, persist, name = case
+    saver, m, parts, pre, wfaults, cfaults, ext, persist, name, spell = case
     pre = tuple(pre)
     n = len(parts)
     site = 'saveAsTextFile' if saver % 2 == TEXT else 'saveAsPickleFile'
     if isinstance(result, Err):
         return (f'{site}:harness', f'could not observe: {result}')
-    outcome, final, hist, calls, locked, follow, read, names, per_part, read_glob, resave = result
+    outcome, final, hist, calls, locked, follow, read, names, per_part, read_glob, resave, stray = result
     flat = [x for p in parts for x in _elements(saver, p)]
     # the context remains usable, whatever happened
     if locked or follow is not None:
         return (f'{site}:context-unusable-after-{"failed" if outcome else "successful"}-save',
                 f'locked={locked}, follow-up job: {follow!r}')
+    # 0. a save writes into its target and nowhere else, however the target's path is spelled
+    if stray:
+        return (f'{site}:write-outside-target', f'spelling {spell}: created {stray!r} next to the target')
     # 1. an existing target: FileAlreadyExistsException before anything is written or modified
     if pre != ABSENT:
         if outcome != Err('FileAlreadyExistsException'):
@@ -319,7 +359,7 @@ def _norm(snap):
 
 def nontrivial(case, result):
     return bool(case[4]) or bool(case[5]) or tuple(case[3]) != ABSENT or bool(case[6]) or bool(case[7][0]) \
-        or max((len(_elements(case[0], p)) for p in case[2]), default=0) > 3 or case[8] != 'out'
+        or max((len(_elements(case[0], p)) for p in case[2]), default=0) > 3 or case[8] != 'out' or bool(case[9])
 
 
 # ---------------------------------------------------------------- generation
@@ -376,6 +416,27 @@ NAMES = ['_staging', '.snapshot', 'runs/_latest', '_SUCCESS_dir', '_SUCCESS', 'p
          'a#b', '100%', '%41', 'a+b=c', 'na\u00efve-\u00fc', '\u65e5\u672c', 'dot.', 'two..dots', '.hidden/inner', '_tmp/.x', 'x' * 200,
          '-dash', '~tilde', "quote'", 'dq"', 'semi;colon', 'amp&', '(paren)', '@at', '!bang', '$dollar', '{brace}', 'a:b',
          'file:x', 'tab\tx', 'back\\slash', 'a.b.c', '_/_', '.a/.b']
+
+
+def _spelling_sweep(rng, quick):
+    """Ways of writing the path of a target that already exists (file, empty directory, marked directory, ...): every
+    spelling x both savers x one and several partitions x pre-state; and absent targets through the spellings that
+    denote a creatable path."""
+    cases = []
+    for saver in (TEXT, PICKLE):
+        for n in (1, 3):
+            parts = [_sized_part(saver, rng.choice([0, 1, 2]), t + 1) for t in range(n)]
+            for spell in range(7):
+                for pre in _pre_states(rng, saver):
+                    if spell in (3, 6) and pre[0] == 1:
+                        continue   # '<file>/' does not denote the file (os.path.exists is False): see design.d/C09.md
+                    for name, ext in (('out', ''), (rng.choice(['_staging', 'runs/x', 'a b']), rng.choice(['', '.gz']))):
+                        cases.append((saver, 1, parts, pre, [], [], ext, NOPERSIST, name, spell))
+                cases.append((saver + 2, 1, parts, rng.choice(_pre_states(rng, saver)), [], [], '', NOPERSIST, 'out', spell if spell not in (3, 6) else 0))
+                if spell in (1, 4, 5):   # doubled separators: the reader does not find a directory written that way, see design.d
+                    cases.append((saver, 1, parts, ABSENT, [], [], '', NOPERSIST, 'out', spell))
+                    cases.append((saver, 2, parts, ABSENT, [_w(0, TORN, 1)], [_c(n - 1, 1)], '', NOPERSIST, 'out', spell))
+    return cases
 
 
 def _name_sweep(rng, quick):
@@ -467,7 +528,7 @@ def generate(rng, tier):
     cases += [c + (NOPERSIST, 'out') for c in _codec_sweep(rng, quick)]
     cases += [c + ('out',) for c in _size_sweep(rng, quick)]
     cases += [c + ('out',) for c in _persist_sweep(rng, quick)]
-    cases += _name_sweep(rng, quick)
+    cases = [c + (0,) if len(c) == 9 else c for c in cases + _name_sweep(rng, quick)] + _spelling_sweep(rng, quick)
     # random plans
     for _ in range(700 if quick else 8000):
         saver = rng.choice((TEXT, PICKLE)) + rng.choice((0, 0, 2))
@@ -494,7 +555,8 @@ def generate(rng, tier):
             elif r < 0.35:
                 cf += [_c(i, a, rng.choice(classes), rng.random() < 0.5, rng.choice([0, 1, 2, 9])) for a in range(1, m + 1) if rng.random() < 0.5]
         persist = rng.choice([(0, 0), (0, 0), (1, 0), (1, rng.randint(1, 6)), (2, rng.randint(0, 3))])
-        cases.append((saver, m, parts, pre, wf, cf, ext, persist, rng.choice(NAMES) if rng.random() < 0.2 else 'out'))
+        cases.append((saver, m, parts, pre, wf, cf, ext, persist, rng.choice(NAMES) if rng.random() < 0.2 else 'out',
+                      rng.choice([1, 4, 5]) if rng.random() < 0.15 else 0))
     return cases
 
 
@@ -622,6 +684,13 @@ def extra_evidence():
 
 
 def shrink_candidates(case):
+    for c in _shrink9(case[:9]):
+        yield c + (case[9],)
+    if case[9]:
+        yield case[:9] + (0,)
+
+
+def _shrink9(case):
     saver, m, parts, pre, wf, cf, ext, persist, name = case
     for c in _shrink6((saver, m, parts, pre, wf, cf)):
         yield c + (ext, persist, name)
